@@ -1,6 +1,11 @@
 """C16 - Hy-MMSBM sampler: correspondence of lean/Hgxv/Model/C16.lean with
 hypergraphx.generation.hy_mmsbm_sampling.HyMMSBMSampler and independent property oracles on the sampler's outputs.
 
+Initial hypergraphs carry node labels of every comparable TYPE (`gen_universe`: the ids, look-alikes of the ids, floats, ints
+next to floats, huge / negative ints, strings, numeric strings, Fractions, numpy scalars, bools), cases hold them as JSON tokens
+(`lab` makes a fresh equal object per occurrence); the model is asked twice: over the naturals (labels coded by rank) and
+generically on the label values (`fromhygQ` / `fromhygS`: C16.sampleFromHygG).
+
 All instrumentation is done from here through attributes (no hook in /repo): `sampler._rng` and
 `sampler._model._rng` are replaced by recording proxies, `_mcmc_step`, `_mcmc_routine`, `_extract_hye`,
 `_match_sequences` are wrapped on the instance, `sample_truncated_poisson` and scipy's `stats.poisson.ppf` are
@@ -20,8 +25,15 @@ import signal
 
 import hgxv
 
-RULE = ("three conditioning modes of HyMMSBMSampler.sample: (A) initial hypergraph with >= 2 hyperedges of size 2-5 over sparse "
-        "integer or string labels (isolated nodes, sometimes weighted, sometimes more rows in u than nodes), (B) degree + size "
+RULE = ("three conditioning modes of HyMMSBMSampler.sample: (A) initial hypergraph with >= 2 hyperedges of size 2-5 over a label "
+        "universe of every comparable TYPE (the ids 0..n-1, nearly the ids, look-alikes of the ids: min 0 / max n-1 with non-integer "
+        "floats in between, i+eps, fractions k/d of the ids, small ints with negatives, the ids as floats / strings / bools; non-integer "
+        "floats, ints next to floats, ints around 2^31..2^70 next to small / negative ints and floats, negative ints below -2^63, sparse "
+        "ints, strings with case / prefix / empty / non-ASCII, numeric strings, Fractions, numpy scalars), every label occurrence a fresh "
+        "equal object, an integer-valued label written as int in one hyperedge and as float in another, random node order inside and "
+        "random order of the hyperedges, 30 % reached through a history with a temporary hyperedge / node removed again (isolated nodes, "
+        "sometimes weighted, sometimes more rows in u than nodes); every universe also in 3 fixed zoo cases per run, "
+        "(B) degree (dtype int64 / int32 / uint8 / float64 / object) + size "
         "sequence with equal totals - taken from a random hypergraph (mostly matching) or a skewed split of the same total "
         "(mostly non-matching), plus a few pairs with unequal totals (correspondence only), (C) sampling from the model "
         "(u, w dyadic k/8, max size 3-5, exact dyadic sampling on/off), (H) hard communities: one-hot u, diagonal w, initial "
@@ -33,8 +45,11 @@ RULE = ("three conditioning modes of HyMMSBMSampler.sample: (A) initial hypergra
         "replaced by extreme legal values 0, 2^-53, 1-2^-53, ... (ustream>0); the D44 witnesses (seeds whose uniforms round p "
         "to P(X=0) / to 1) are replayed every run; plus direct calls of _pairwise_reshuffle, _deg_seq_to_dict, _extract_hye "
         "(all four flag combinations) and sample_truncated_poisson (means 1e-300 .. 1e5, scalar and array); (S) sessions: ONE sampler "
-        "object used for 2-5 sample(...) calls - initial hypergraphs each with its own label set (strings, sparse integers, the ids "
-        "themselves, nearly the ids), degree/size sequences that match or not, sampling from the model, in every order, a call "
+        "object used for 2-6 sample(...) calls - initial hypergraphs each with its own label universe (as in A), 45 % of the later ones "
+        "a sibling of an earlier one (same number of nodes and same smallest / largest label but other labels in between, same labels "
+        "but other hyperedges, labels moved by one, same count from another universe), 20 % of the sessions start with an initial "
+        "hypergraph holding a hyperedge larger than max_hye_size followed by sampling from the model, degree/size sequences that match "
+        "or not, sampling from the model, in every order, a call "
         "repeated later (with the same argument objects or equal fresh ones) - whose generators are created lazily or all up front "
         "and consumed 1-3 samples each, one after the other or interleaved; each session runs on two recorded samplers and (real "
         "uniforms) on an uninstrumented one; every call is judged against the conditioning of that call, its report "
@@ -45,7 +60,11 @@ ASSUMPTIONS = [
     "initial hypergraphs have hyperedges of size >= 2 and size sequences have keys >= 2 (a size-1 entry is extracted and dropped by the sampler; the property speaks of sizes >= 2)",
     "matching_sequences is the report of the most recently STARTED sequence-conditioned call (an attribute of the sampler object): it is read right after the first sample of a call; sample(initial_hyg=...) makes no report",
     "in a session every call's deg_seq has one entry per row of u and every initial hypergraph at most as many nodes as u has rows (the sampler's internal ids are row indices)",
-    "labels are mapped order-isomorphically to naturals before they reach the model",
+    "labels reach the model over the naturals through an order isomorphism onto naturals (C16_hyg_any_labels: the choice of the names is immaterial) and, "
+    "in addition, the generic model sampleFromHygG by their VALUES (numbers as exact rationals - equal labels of different numeric types are one node -, "
+    "strings as opaque tokens); the classes are handed to the model in Python's sorted order",
+    "output labels are compared by equality (numpy scalars / 1.0 for 1 are the same node, as for the container itself)",
+    "labels of one hypergraph are mutually comparable scalars (tuple labels make Hypergraph.get_mapping raise inside sklearn: no output, outside)",
     "an exception of the sampler is 'no output' (the model must answer none on the same draws); it is reported as a broken correspondence when the model returns",
     "the branch force_deg_seq and not force_dim_seq of _match_sequences (only one sequence given) is outside the property's quantifier; it references self.model (AttributeError) - noted, not claimed",
 ]
@@ -339,16 +358,70 @@ def case_params(case):
             np.array(case["w"], dtype=float) / float(case.get("wdiv", 8)))
 
 
+def lab(tok, lkind="num"):
+    """a FRESH label object for the JSON token `tok` (a new equal object per occurrence: no call ever sees the object of
+    another occurrence).  lkind: num (ints of any size / floats as they stand), str, frac ("p/q" -> Fraction), np (numpy
+    scalars), bool (tokens 0 / 1 are False / True, other tokens ints)"""
+    import numpy as np
+    from fractions import Fraction
+    if isinstance(tok, str):
+        return Fraction(tok) if lkind == "frac" else "".join(list(tok))
+    if isinstance(tok, bool):
+        return bool(int(tok))
+    if lkind == "np":
+        return np.float64(float(repr(tok))) if isinstance(tok, float) else np.int64(int(str(tok)))
+    if lkind == "bool" and isinstance(tok, int) and tok in (0, 1):
+        return bool(tok)
+    if isinstance(tok, float):
+        return float(repr(tok))
+    return int(str(tok))
+
+
+def lab_edge(e, lkind):
+    return tuple(lab(x, lkind) for x in e)
+
+
+DDTYPES = ["int64", "int64", "int64", "int32", "uint8", "float64", "object"]
+
+
+def deg_array(case):
+    """the degree sequence as the array the caller hands in (the sampler asks for an ndarray of shape (N,); every integer-valued
+    dtype is the same sequence)"""
+    import numpy as np
+    return np.array([int(x) for x in case["deg_seq"]], dtype=case.get("ddtype", "int64"))
+
+
 def make_h0(case):
+    """the initial hypergraph of a case, reached through its history: temporary hyperedges / nodes first (removed again
+    below), isolated nodes, then the hyperedges in the order and with the node order of the case; every label occurrence
+    is a fresh equal object"""
     from hypergraphx import Hypergraph
+    lk = case.get("lkind", "num")
     h0 = Hypergraph(weighted=case.get("weighted", False))
-    for x in case.get("isolated", []):
-        h0.add_node(x)
+    temp = [lab_edge(e, lk) for e in case.get("temp", [])]
+    for e in temp:
+        if case.get("weighted", False):
+            h0.add_edge(e, weight=7)
+        else:
+            h0.add_edge(e)
+    iso = list(case.get("isolated", []))
+    late = iso[len(iso) // 2:] if case.get("temp") is not None else []      # histories: half of the isolated nodes come last
+    for x in iso[:len(iso) - len(late)]:
+        h0.add_node(lab(x, lk))
     for i, e in enumerate(case["edges"]):
         if case.get("weighted", False):
-            h0.add_edge(tuple(e), weight=1 + i % 3)
+            h0.add_edge(lab_edge(e, lk), weight=1 + i % 3)
         else:
-            h0.add_edge(tuple(e))
+            h0.add_edge(lab_edge(e, lk))
+    for x in late:
+        h0.add_node(lab(x, lk))
+    if temp:
+        keep = {lab(x, lk) for e in case["edges"] for x in e} | {lab(x, lk) for x in iso}
+        for e in case["temp"]:
+            h0.remove_edge(lab_edge(e, lk))
+        for x in {x for e in temp for x in e}:
+            if x not in keep:
+                h0.remove_node(x)
     return h0
 
 
@@ -366,7 +439,7 @@ def run_naked(case):
                 res["h0"] = make_h0(case)
                 g = s.sample(initial_hyg=res["h0"])
             elif case["mode"] == "seqs":
-                g = s.sample(deg_seq=np.array(case["deg_seq"], dtype=int), dim_seq={int(k): int(v) for k, v in case["dim_seq"]},
+                g = s.sample(deg_seq=deg_array(case), dim_seq={int(k): int(v) for k, v in case["dim_seq"]},
                              allow_rescaling=case.get("rescale", False))
             else:
                 g = s.sample()
@@ -399,7 +472,7 @@ def run_sampler(case, trace):
                     res["h0"] = h0
                     g = s.sample(initial_hyg=h0)
                 elif case["mode"] == "seqs":
-                    g = s.sample(deg_seq=np.array(case["deg_seq"], dtype=int), dim_seq={int(k): int(v) for k, v in case["dim_seq"]},
+                    g = s.sample(deg_seq=deg_array(case), dim_seq={int(k): int(v) for k, v in case["dim_seq"]},
                                  allow_rescaling=case.get("rescale", False))
                 else:
                     g = s.sample()
@@ -515,6 +588,38 @@ def dec_outs(ans):
                 xs = [int(t) for t in item.split(",")]
                 o.append((tuple(sorted(xs[1:])), xs[0]))
         outs.append(sorted(o, key=repr))
+    return outs
+
+
+def val_tok(x):
+    """wire token of a label VALUE for the generic model (`sampleFromHygG`): numbers by their exact rational value (equal labels
+    of different numeric types are one node and get one token), strings hex-coded"""
+    import numbers
+    from fractions import Fraction
+    x = plain(x)
+    if isinstance(x, str):
+        return "s" + x.encode("utf-8").hex()
+    if isinstance(x, bool):
+        return str(int(x))
+    if isinstance(x, int):
+        return str(x)
+    if isinstance(x, (float, Fraction, numbers.Rational)):
+        fr = Fraction(x)
+        return str(fr.numerator) if fr.denominator == 1 else f"{fr.numerator}/{fr.denominator}"
+    raise BadTrace(f"label {x!r} of type {type(x).__name__} has no wire token")
+
+
+def dec_outs_tok(ans):
+    if ans == "-":
+        return []
+    outs = []
+    for part in ans.split("|"):
+        o = []
+        if part != "_":
+            for item in part.split(";"):
+                xs = item.split(",")
+                o.append((tuple(sorted(xs[1:])), int(xs[0])))
+        outs.append(sorted(o))
     return outs
 
 
@@ -737,6 +842,9 @@ def check_case(ctx, drv, case):
     changed = any(acc for _, acc in t1.steps) and t1.routine is not None and any(y != t1.routine["init"] + t1.routine["fixed"] for y in t1.routine["yields"])
     ctx.case(key, bool(changed), sample=case)
     ctx.count("mode_" + mode)
+    if "universe" in case:
+        ctx.count("universe_" + case["universe"])
+        ctx.count("hyg_with_history", 1 if case.get("temp") else 0)
     ctx.count("ustream_real" if not case.get("ustream", 0) else "ustream_extreme")
     ctx.count("steps", len(t1.steps))
     ctx.count("accepted", sum(acc for _, acc in t1.steps))
@@ -805,13 +913,26 @@ def judge(ctx, drv, case, r1, t1, r3=None):
         if mode == "hyg":
             h0 = r1["h0"]
             nodes = sorted(h0.get_nodes())
-            code = {x: 3 + 7 * i for i, x in enumerate(nodes)} if not all(isinstance(x, int) for x in nodes) else {x: x for x in nodes}
+            # labels reach the model through an order isomorphism onto naturals (C16_hyg_relabel: the model's answer on the
+            # image is the image of its answer); small naturals stand for themselves
+            code = ({x: x for x in nodes} if all(type(x) is int and 0 <= x < 2 ** 62 for x in nodes)
+                    else {x: 3 + 7 * i for i, x in enumerate(nodes)})
             edges = [[code[x] for x in e] for e in h0.get_edges()]
             lines.append(f"fromhyg {hgxv.enc_list([code[x] for x in nodes])} {hgxv.enc_lists(edges)} {enc_steps(burn)} "
                          f"{enc_blocks(blocks[:n_out])} {hgxv.enc_lists(weights[:n_out])}")
             want = [sorted(((tuple(sorted(code[x] for x in e)), wt) for e, wt in o), key=repr) for o in r1["out"]]
             expect.append(("outs", want, r1["exc"] if n_out < case.get("nsamples", NSAMPLES) else None))
             call = {"line": "call" + lines[-1][4:], "report": "-", "outs": want, "complete": r1["exc"] is None, "sets_flag": False}
+            # the generic model on the label VALUES themselves (rationals / opaque strings): C16.sampleFromHygG
+            kinds = {isinstance(plain(x), str) for x in nodes}
+            if len(kinds) == 1:
+                cmd = "fromhygS" if kinds.pop() else "fromhygQ"
+                tl = lambda xs: ",".join(val_tok(x) for x in xs) if xs else "_"      # noqa: E731
+                lines.append(f"{cmd} {tl(nodes)} {';'.join(tl(e) for e in h0.get_edges())} {enc_steps(burn)} "
+                             f"{enc_blocks(blocks[:n_out])} {hgxv.enc_lists(weights[:n_out])}")
+                want_t = [sorted((tuple(sorted(val_tok(x) for x in e)), int(wt)) for e, wt in o) for o in r1["out"]]
+                expect.append(("outs_tok", want_t, r1["exc"] if n_out < case.get("nsamples", NSAMPLES) else None))
+                ctx.count("generic_model_" + cmd)
         elif t1.match is not None:
             m = t1.match
             if mode == "model" and any(float(x) < 0 for x in m["deg_seq"]):
@@ -820,6 +941,14 @@ def judge(ctx, drv, case, r1, t1, r3=None):
                 # looks at - no clause of the property is concerned, and the model's degrees are naturals: no replay
                 ctx.count("inner_model_negative_degree")
                 return None
+            if mode == "model":
+                bound = case.get("D") or len(case["u"])
+                over = sorted(int(k) for k, v in m["dim_seq"] if int(k) > bound)
+                if over:
+                    # hypothesis of C16_sample_seqs for "at most the maximum size when sampling from the model": the keys of
+                    # the size sequence the inner model offers are bounded by max_hye_size (also those with count 0)
+                    ctx.disagree(case, f"sampling from the model: the size sequence drawn by the inner model has the sizes {over} beyond "
+                                 f"max_hye_size={bound} the sampler was built with (counts {[int(v) for k, v in m['dim_seq'] if int(k) > bound]})")
             deg = ints_of(m["deg_seq"])
             dim = [[int(k), int(v)] for k, v in m["dim_seq"]]
             picks = enc_picks(t1.extracts)
@@ -864,7 +993,7 @@ def judge(ctx, drv, case, r1, t1, r3=None):
                 what = f"implementation raised ({r1['exc']}) but the model returns {a[:200]!r}"
         elif a == "none" or a == "bad-op":
             # the model stops where the code raised: only acceptable when the code raised inside this stage
-            if not (len(ex) > 1 and ex[-1] is not None and ex[0] in ("outs", "flag_outs")) or a == "bad-op":
+            if not (len(ex) > 1 and ex[-1] is not None and ex[0] in ("outs", "flag_outs", "outs_tok")) or a == "bad-op":
                 what = f"model answers {a!r}, implementation returned {str(ex[1])[:200]}"
         elif ex[0] == "cfgs":
             got = [[sorted(e) for e in c] for c in dec_cfgs(a)]
@@ -873,6 +1002,9 @@ def judge(ctx, drv, case, r1, t1, r3=None):
         elif ex[0] == "outs":
             if dec_outs(a) != ex[1]:
                 what = f"samples differ: model {dec_outs(a)} implementation {ex[1]}"
+        elif ex[0] == "outs_tok":
+            if dec_outs_tok(a) != ex[1]:
+                what = f"samples differ from the generic model run on the label values: model {dec_outs_tok(a)} implementation {ex[1]}"
         elif ex[0] == "match":
             cfg_s, flag_s, keys_s, resid_s, unused = a.split(" ")
             got = [sorted(e) for e in hgxv.dec_lists(cfg_s)]
@@ -934,7 +1066,7 @@ def make_args(call):
     if call["mode"] == "hyg":
         return {"initial_hyg": make_h0(call)}
     if call["mode"] == "seqs":
-        return {"deg_seq": np.array(call["deg_seq"], dtype=int), "dim_seq": {int(k): int(v) for k, v in call["dim_seq"]},
+        return {"deg_seq": deg_array(call), "dim_seq": {int(k): int(v) for k, v in call["dim_seq"]},
                 "allow_rescaling": call.get("rescale", False)}
     return {}
 
@@ -943,8 +1075,11 @@ def args_intact(call, args):
     """the objects handed to sample(...) still hold what the caller put into them"""
     if call["mode"] == "hyg":
         h0 = args["initial_hyg"]
-        return (sorted(map(repr, h0.get_edges())) == sorted(repr(tuple(e)) for e in call["edges"])
-                and set(h0.get_nodes()) == {x for e in call["edges"] for x in e} | set(call.get("isolated", [])))
+        lk = call.get("lkind", "num")
+        edges = [frozenset(e) for e in h0.get_edges()]
+        want = [frozenset(lab_edge(e, lk)) for e in call["edges"]]
+        return (len(edges) == len(want) and set(edges) == set(want)
+                and set(h0.get_nodes()) == {lab(x, lk) for e in call["edges"] for x in e} | {lab(x, lk) for x in call.get("isolated", [])})
     if call["mode"] == "seqs":
         return ([int(x) for x in args["deg_seq"]] == [int(x) for x in call["deg_seq"]]
                 and list(args["dim_seq"].items()) == [(int(k), int(v)) for k, v in call["dim_seq"]])
@@ -1079,6 +1214,10 @@ def check_session(ctx, drv, sess):
         ck = sub_case(sess, k)
         r3 = R3["res"][k] if R3 is not None else None
         ctx.count("session_call_" + ck["mode"])
+        if "universe" in ck:
+            ctx.count("universe_" + ck["universe"])
+        if "sibling" in ck:
+            ctx.count("session_sibling_" + ck["sibling"])
         calls.append(judge(sub, drv, ck, R1["res"][k], T[k], r3) if ck["nsamples"] else None)
     if drv is None:
         return
@@ -1115,16 +1254,275 @@ def check_session(ctx, drv, sess):
                          f"sampler state has {state!r}")
 
 
-def gen_labels(rng, n):
-    r = rng.random()
-    if r < 0.3:
-        pool = [chr(97 + i) * rng.randint(1, 2) for i in range(20)] + ["E1", "N0", "Z"]
-        return sorted(set(rng.sample(pool, n)))
-    if r < 0.45:
-        return list(range(n))                                   # the labels ARE the ids
-    if r < 0.6:
-        return [x + 1 for x in range(n)] if rng.random() < 0.5 else list(range(n - 1)) + [n + rng.randint(0, 3)]   # nearly the ids
-    return sorted(rng.sample(range(0, 60), n))
+UNIVERSES = ["ids", "near", "look", "lookfloor", "dense", "neglook", "float", "mix", "floatids", "big", "neg", "sparse", "str", "strorder",
+             "numstr", "frac", "np", "bool"]
+BIG_BASES = [2 ** 31, 2 ** 32, 2 ** 53, 2 ** 53, 2 ** 63, 2 ** 63, 2 ** 64, 2 ** 70, 10 ** 30]
+
+
+def distinct_by_value(toks, lkind):
+    seen, out = set(), []
+    for t in toks:
+        v = lab(t, lkind)
+        if v not in seen:
+            seen.add(v)
+            out.append(t)
+    return out
+
+
+def gen_universe(rng, n, kind=None):
+    """n pairwise different, mutually comparable node labels as JSON tokens + how tokens become objects (`lab`).  One
+    universe per comparable TYPE a user can label nodes with - a label's RANK among the labels (= the sampler's internal
+    id) must never be mistaken for its VALUE:
+      ids        0..n-1                       near       1..n / 0..n-2 and one label off / 0,2,..,n
+      look       min 0 and max n-1, non-integer floats in between (n >= 3)
+      lookfloor  i + eps_i: floor (or rounding) of the sorted labels gives 0..n-1
+      dense      fractions of the ids: 0, 1/d, 2/d, ... (min 0, gaps below 1), sometimes shifted
+      neglook    small ints around the id range with negatives (max = n-1 or min = 0 without being the ids)
+      float      non-integer floats (negative, tiny, large)         mix  ints next to floats (some integer-valued)
+      floatids   the ids (or a shift of them) written as floats, all or some
+      big        ints around 2^31 .. 2^70 (consecutive: they differ beyond float precision), next to small / negative ints / floats
+      neg        negative ints, also below -2^63                   sparse  sparse non-negative ints
+      str / strorder (upper/lower case, prefixes, '', blanks, non-ASCII) / numstr (numeric strings: '10' < '9', the ids as strings)
+      frac       Fractions (an object array in the encoder)       np  numpy scalars       bool  False / True next to ints"""
+    kind = kind or rng.choice(UNIVERSES)
+    lk = "num"
+    if kind in ("look", "lookfloor") and n < 3:
+        kind = "near"
+    if kind == "ids":
+        toks = list(range(n))
+    elif kind == "near":
+        toks = rng.choice([[x + 1 for x in range(n)], list(range(n - 1)) + [n + rng.randint(0, 3)], [0] + [x + 2 for x in range(n - 1)],
+                           [x - 1 for x in range(n)]])
+    elif kind == "look":
+        inner = set()
+        while len(inner) < n - 2:
+            x = rng.choice([rng.randint(1, 4 * (n - 1) - 1) / 4, rng.randint(1, 10 * (n - 1) - 1) / 10, rng.randint(1, max(1, n - 2))])
+            if 0 < x < n - 1:
+                inner.add(x)
+        inner = sorted(inner)
+        if all(float(x) == int(x) for x in inner):
+            inner[rng.randrange(len(inner))] += rng.choice([0.5, 0.25, -0.5, 0.1])
+        ends = rng.choice([(0, n - 1), (0, n - 1), (0.0, float(n - 1)), (0, float(n - 1))])
+        toks = [ends[0]] + [int(x) if float(x) == int(x) and rng.random() < 0.5 else float(x) for x in inner] + [ends[1]]
+        if rng.random() < 0.2:                  # only one end looks like the ids
+            toks[rng.choice([0, -1])] = rng.choice([-0.5, n - 0.5, n + 1, -2])
+    elif kind == "lookfloor":
+        eps = [rng.choice([0, 0, 0.25, 0.5, 0.75, 0.1, 0.9]) for _ in range(n)]
+        if rng.random() < 0.5:
+            eps = [rng.choice([0, 0, 0.25, -0.25, 0.4, -0.4]) for _ in range(n)]      # rounding gives the ids
+        if not any(eps):
+            eps[rng.randrange(n)] = 0.5
+        toks = [i if e == 0 else i + e for i, e in enumerate(eps)]
+    elif kind == "dense":
+        d = rng.choice([2, 4, 4, 8, 10, 5])
+        sh = rng.choice([0, 0, 0, 1, -1, 0.5])
+        toks = [sh + k / d for k in range(n)]
+        toks = [int(x) if x == int(x) and rng.random() < 0.5 else x for x in toks]
+    elif kind == "neglook":
+        lo = -rng.randint(1, 3)
+        toks = sorted(rng.sample(range(lo, n + 2), n))
+        r = rng.random()
+        if r < 0.4:                             # max = n-1, min negative
+            toks = sorted(rng.sample(range(lo, n - 1), n - 1)) + [n - 1] if n - 1 - lo >= n - 1 else toks
+            if toks[0] >= 0:
+                toks[0] = lo
+        elif r < 0.6:                           # sum of the labels = sum of the ids
+            toks = [-1] + list(range(1, n - 1)) + [n] if n >= 3 else toks
+    elif kind == "float":
+        pool = [k / 4 for k in range(-9, 40) if k % 4] + [k / 10 for k in range(1, 50) if k % 10] + [k + 1 / 3 for k in range(6)] + \
+               [-k / 8 for k in range(1, 30, 2)] + [1.0e-3, 2.5e-7, 1.0e6 + 0.5, 1.0e15 + 0.5, -1.0e9 - 0.25, 1.0e300, 5.0e-324]
+        toks = rng.sample(pool, n)
+    elif kind == "mix":
+        pool = list(range(-3, 12)) + [k / 2 for k in range(-5, 20)] + [float(k) for k in range(0, 12, 3)] + [0.1, 2.5, 1.0e3, 40, 41.0]
+        toks = rng.sample(pool, 3 * n)
+    elif kind == "floatids":
+        sh = rng.choice([0, 0, 0, 1, 5])
+        allf = rng.random() < 0.5
+        toks = [float(i + sh) if (allf or rng.random() < 0.5) else i + sh for i in range(n)]
+    elif kind == "big":
+        b = rng.choice(BIG_BASES)
+        r = rng.random()
+        toks = [b + d for d in rng.sample(range(-3, 6), rng.randint(2, min(n, 9)))]
+        if r < 0.3:
+            toks += [rng.choice(BIG_BASES) + d for d in range(-1, 3)]
+        extra = list(range(0, 9)) + [-1, -5, -2 ** 63, -2 ** 63 - 1, -2 ** 53 - 1]
+        if r > 0.6:
+            extra += [0.5, 2.5, -0.25, 1.0e3, 7.0]
+        toks += rng.sample(extra, n)
+        rng.shuffle(toks)
+    elif kind == "neg":
+        toks = rng.sample(list(range(-40, 0)) + [-2 ** 63 - 1, -2 ** 63, -2 ** 53 - 1, -2 ** 53, -2 ** 31, -10 ** 20], n)
+        if rng.random() < 0.3:
+            toks[0] = rng.choice([0, 3])
+    elif kind == "sparse":
+        toks = rng.sample(range(0, 60), n) if rng.random() < 0.7 else rng.sample(range(0, 5000, 7), n)
+    elif kind == "str":
+        lk = "str"
+        toks = rng.sample([chr(97 + i) * rng.randint(1, 2) for i in range(20)] + ["E1", "N0", "Z"], min(23, 2 * n))
+    elif kind == "strorder":
+        lk = "str"
+        toks = rng.sample(["a", "B", "aa", "ab", "b", "A", "Z", "z", "", " ", "a b", "\u00e9", "e", "f", "Ab", "aB", "_", "~", "node", "Node",
+                           "node10", "node9", "x" * 30], min(23, 2 * n))
+    elif kind == "numstr":
+        lk = "str"
+        if rng.random() < 0.4:
+            sh = rng.choice([0, 0, 1, 8])
+            toks = [str(i + sh) for i in range(n)]              # the ids as strings ('10' < '9' when they reach 10)
+        else:
+            toks = rng.sample(["0", "1", "2", "9", "10", "11", "100", "-1", "1.5", "01", "1e3", "20", "3", "007", "0.5", "+1"], min(16, 2 * n))
+    elif kind == "frac":
+        lk = "frac"
+        toks = rng.sample(["1/2", "3/2", "7/3", "-1/3", "2", "5/4", "0", "3", "1", "22/7", "-5", "1/3", "2/3", "10/3", "1/1000000007"], min(15, 2 * n))
+    elif kind == "np":
+        lk = "np"
+        toks = rng.choice([rng.sample(range(0, 60), n), list(range(n)), [k / 4 for k in rng.sample(range(-8, 40), n)],
+                           [0] + [i + 0.5 for i in range(n - 2)] + [n - 1] if n >= 3 else [1, 2],
+                           rng.sample(range(2 ** 40, 2 ** 40 + 50), n)])
+    else:
+        kind, lk = "bool", "bool"
+        toks = rng.choice([[0, 1], [1], [0]]) + rng.sample(range(2, 24), n)
+        if rng.random() < 0.3:
+            toks = list(range(n))               # False, True, 2, 3, ...: equal to the ids
+    toks = distinct_by_value(toks, lk)[:n]
+    if len(toks) < n:                           # cannot happen with the pools above; keep the case well-formed anyway
+        toks = list(range(n))
+        lk = "num"
+    rng.shuffle(toks)
+    return toks, lk, kind
+
+
+def gen_hyg_edges(rng, toks, lkind, n_edges):
+    """hyperedges over the tokens: node order inside a hyperedge and order of the hyperedges are random (labels are first met
+    in an order that is not their sorted order); in numeric universes an integer-valued label may be written as an int in one
+    hyperedge and as an equal float in another (one node: equal keys)"""
+    edges, seen = [], set()
+    for _ in range(n_edges * 3):
+        size = min(len(toks), rng.choice([2, 2, 2, 3, 3, 4, 5]))
+        e = rng.sample(toks, size)
+        key = frozenset(lab(x, lkind) for x in e)
+        if key not in seen:
+            seen.add(key)
+            edges.append([alt_numeric(rng, x) if lkind == "num" else x for x in e])
+        if len(edges) == n_edges:
+            break
+    return edges
+
+
+def alt_numeric(rng, x):
+    if isinstance(x, bool) or rng.random() > 0.12:
+        return x
+    if isinstance(x, int) and abs(x) <= 2 ** 53:
+        return float(x)
+    if isinstance(x, float) and x == int(x) and abs(x) <= 2 ** 53:
+        return int(x)
+    return x
+
+
+def gen_initial(rng, n, kind=None):
+    """the `initial_hyg` part of a case: label universe, hyperedges, isolated nodes, history (temporary items)"""
+    toks, lk, kind = gen_universe(rng, n, kind)
+    edges = gen_hyg_edges(rng, toks, lk, rng.randint(2, 8))
+    used = {lab(x, lk) for e in edges for x in e}
+    iso = [x for x in toks if lab(x, lk) not in used and rng.random() < 0.5]
+    part = {"edges": edges, "isolated": iso, "lkind": lk, "universe": kind}
+    if rng.random() < 0.3:
+        # history: a temporary hyperedge (over present labels and, mostly, one more label of the same universe), removed again
+        more, lk2, _ = gen_universe(rng, n + 2, kind)
+        fresh = [x for x in more if lk2 == lk and lab(x, lk) not in {lab(y, lk) for y in toks}][:rng.choice([0, 1, 1, 2])]
+        te = rng.sample(toks, min(len(toks), rng.randint(1, 2))) + fresh
+        have = {frozenset(lab(x, lk) for x in e) for e in edges}
+        if len(te) >= 2 and frozenset(lab(x, lk) for x in te) not in have and len({lab(x, lk) for x in te}) == len(te):
+            part["temp"] = [te]
+    return part
+
+
+# in sessions the look-alikes of the ids matter most (an earlier call's encoder / a cached decision must not leak)
+SESSION_UNIVERSES = UNIVERSES + ["ids", "ids", "near", "look", "lookfloor", "neglook", "floatids", "numstr", "str", "sparse"]
+
+
+def sibling_initial(rng, prev, n_max, flavour=None):
+    """another initial hypergraph for the SAME sampler that a cheap signature cannot tell from `prev` (an earlier call's): the same
+    number of nodes with the same smallest and largest label but other labels in between (`ends`), the same labels but other
+    hyperedges (`labels`), every label moved by one (`shift`), or just the same number of nodes from another universe (`count`)"""
+    lk = prev["lkind"]
+    toks = distinct_by_value([x for e in prev["edges"] for x in e] + list(prev["isolated"]), lk)
+    n = len(toks)
+    flavour = flavour or rng.choice(["ends", "ends", "labels", "shift", "count"])
+    new = None
+    if flavour in ("ends", "shift") and lk == "num" and n >= 3 and all(math.isfinite(x) for x in toks):
+        vals = sorted(toks)
+        if flavour == "shift":
+            new = [x + 1 for x in vals]
+        else:
+            lo, hi = vals[0], vals[-1]
+            cands = set()
+            if isinstance(lo, int) and isinstance(hi, int):
+                cands |= {lo + ((hi - lo) * k) // 16 for k in range(1, 16)} | {lo + 1, lo + 2, hi - 1, hi - 2}
+            if abs(lo) < 2 ** 40 and abs(hi) < 2 ** 40:
+                cands |= {lo + (hi - lo) * k / 16 for k in range(1, 16)} | {lo + (hi - lo) * k / 10 for k in range(1, 10)}
+            cands = [x for x in distinct_by_value(sorted(cands), lk) if lo < x < hi]
+            fresh = [x for x in cands if x not in set(vals)]
+            pool = fresh if len(fresh) >= n - 2 else cands
+            if len(pool) >= n - 2 and fresh:
+                inner = rng.sample(pool, n - 2)
+                if all(x in set(vals) for x in inner):
+                    inner[0] = fresh[0] if fresh[0] not in inner else inner[0]
+                new = [lo] + inner + [hi]
+                if len(distinct_by_value(new, lk)) != n:
+                    new = None
+    if new is None and flavour == "count" and 3 <= n <= n_max:
+        new, lk, kind = gen_universe(rng, n)
+        part_kind = kind
+    elif new is None:
+        new, part_kind = list(toks), prev.get("universe", "?")        # the same labels, other hyperedges
+    else:
+        part_kind = prev.get("universe", "?")
+    rng.shuffle(new)
+    edges = gen_hyg_edges(rng, new, lk, rng.randint(2, 7))
+    used = {lab(x, lk) for e in edges for x in e}
+    iso = [x for x in new if lab(x, lk) not in used]                    # all labels stay nodes: the count is the same
+    return {"edges": edges, "isolated": iso, "lkind": lk, "universe": part_kind, "sibling": flavour}
+
+
+def add_large_edge(rng, c, D):
+    """one more hyperedge of size > D for the initial hypergraph of call `c` (when it has more than D nodes)"""
+    lk = c["lkind"]
+    pool = distinct_by_value([x for e in c["edges"] for x in e] + list(c["isolated"]), lk)
+    have = {frozenset(lab(x, lk) for x in e) for e in c["edges"] + c.get("temp", [])}
+    if len(pool) <= D:
+        return False
+    e = rng.sample(pool, rng.randint(D + 1, len(pool)))
+    if frozenset(lab(x, lk) for x in e) in have:
+        return False
+    c["edges"] = [list(x) for x in c["edges"]] + [e]
+    used = {lab(x, lk) for x in e}
+    c["isolated"] = [x for x in c["isolated"] if lab(x, lk) not in used]
+    return True
+
+
+def zoo_sessions():
+    """fixed sessions, one per look-alike universe: an initial hypergraph with its own labels and a hyperedge larger than
+    max_hye_size, then - same sampler - sampling from the model, matching sequences, another initial hypergraph, the model again
+    (parameters for which the model draws 15-20 hyperedges on 6 nodes)"""
+    import random
+    for i, kind in enumerate(["look", "numstr", "neglook", "big", "ids", "lookfloor", "frac", "floatids"]):
+        rng = random.Random(2000 + i)
+        N, D = 6, 3
+        first = {"mode": "hyg", **gen_initial(rng, 6, kind), "weighted": False}
+        for _ in range(5):
+            if add_large_edge(rng, first, D):
+                break
+        if i % 2 == 0:
+            other = {"mode": "hyg", **gen_initial(rng, rng.randint(3, 6), UNIVERSES[(3 * i + 1) % len(UNIVERSES)]), "weighted": i % 3 == 0}
+        else:   # a sibling of the first one: same count, same smallest / largest label (numeric universes), else same labels
+            other = {"mode": "hyg", **sibling_initial(rng, first, N, "ends"), "weighted": False}
+        seqs = {"mode": "seqs", "deg_seq": [2, 2, 1, 1, 2, 0], "dim_seq": [[3, 2], [2, 1]], "equal_totals": True, "rescale": False,
+                "ddtype": DDTYPES[i % len(DDTYPES)]}
+        calls = [first, {"mode": "model"}, seqs, other, {"mode": "model"}]
+        schedule = [0, 1, 2, 3, 4, 4] if i % 2 == 0 else [0, 3, 1, 0, 4, 2, 3, 1]
+        yield {"mode": "session", "u": [[3 + (k % 3), 1 + (k % 2)] for k in range(N)], "w": [[8, 1], [1, 6]], "udiv": 4, "wdiv": 8,
+               "D": D, "exact": i % 2 == 0, "burn": 1, "thin": 1, "seed": 5 + i, "ustream": 0, "calls": calls, "schedule": schedule,
+               "eager": i % 4 == 3, "share": False, "zoo": kind}
 
 
 def gen_session(rng):
@@ -1139,11 +1537,11 @@ def gen_session(rng):
         kind = rng.choice(["hyg", "hyg", "seqs", "seqs", "model"])
         if kind == "hyg":
             n = rng.randint(3, N)
-            labels = gen_labels(rng, n)
-            edges = gen_edges(rng, labels, rng.randint(2, 7))
-            used = {x for e in edges for x in e}
-            iso = [x for x in labels if x not in used and rng.random() < 0.5]
-            calls.append({"mode": "hyg", "edges": [list(e) for e in edges], "isolated": iso, "weighted": rng.random() < 0.15})
+            earlier = [c for c in calls if c["mode"] == "hyg"]
+            if earlier and rng.random() < 0.45:
+                calls.append({"mode": "hyg", **sibling_initial(rng, rng.choice(earlier), N), "weighted": rng.random() < 0.15})
+            else:
+                calls.append({"mode": "hyg", **gen_initial(rng, n, rng.choice(SESSION_UNIVERSES)), "weighted": rng.random() < 0.15})
         elif kind == "seqs":
             edges = gen_edges(rng, list(range(N)), rng.randint(2, 8))
             deg = [0] * N
@@ -1157,8 +1555,10 @@ def gen_session(rng):
                     deg[min(N - 1, int(rng.random() ** 2 * N))] += 1
             dim = list(count_sizes(edges).items())
             rng.shuffle(dim)
+            if rng.random() < 0.15:
+                deg, dim = hub_sequences(rng, N)
             calls.append({"mode": "seqs", "deg_seq": deg, "dim_seq": [[k, v] for k, v in dim], "equal_totals": True,
-                          "rescale": rng.random() < 0.1})
+                          "rescale": rng.random() < 0.1, "ddtype": rng.choice(DDTYPES)})
         else:
             calls.append({"mode": "model"})
     if rng.random() < 0.35:
@@ -1167,14 +1567,38 @@ def gen_session(rng):
         for c in calls:                                             # positions moved by the insertion
             if "same_as" in c:
                 c["same_as"] = j
+    D = rng.randint(3, min(5, N)) if rng.random() < 0.6 else None
+    carry = N >= 5 and rng.random() < 0.2
+    if carry:
+        # what an initial-hypergraph call may leave behind on the long-lived sampler / inner model: the first call is conditioned on
+        # an initial hypergraph that is larger in every respect than what the sampler was built for (hyperedges beyond max_hye_size,
+        # its own labels), the second samples from the model - with parameters for which the model does draw hyperedges
+        D = 3
+        if calls[0]["mode"] != "hyg" or "same_as" in calls[0] or any(c.get("same_as") == 0 for c in calls):
+            calls = [{"mode": "hyg", **gen_initial(rng, rng.randint(5, N), rng.choice(SESSION_UNIVERSES)), "weighted": False}] + \
+                    [c for c in calls if "same_as" not in c]
+        calls.insert(1, {"mode": "model"})
+        for c in calls:
+            if "same_as" in c:
+                c["same_as"] += 1
+    if D is not None:
+        # an initial hypergraph may hold hyperedges larger than max_hye_size (its chain only keeps the sizes it finds); a later
+        # call that samples from the model on the same sampler is still bound by max_hye_size
+        for i, c in enumerate(calls):
+            if (c["mode"] == "hyg" and "same_as" not in c and any(d["mode"] == "model" for d in calls[i + 1:])
+                    and (rng.random() < 0.7 or (carry and i == 0))):
+                if add_large_edge(rng, c, D):
+                    for d in calls:
+                        if d.get("same_as") == i:
+                            d["edges"], d["isolated"] = [list(x) for x in c["edges"]], list(c["isolated"])
     per = [rng.choice([1, 2, 2, 3]) for _ in calls]
     schedule = [k for k, c in enumerate(per) for _ in range(c)]
     if rng.random() < 0.5:
         rng.shuffle(schedule)
-    return {"mode": "session", "u": u, "w": w, "D": rng.randint(3, min(5, N)) if rng.random() < 0.6 else None,
+    return {"mode": "session", "u": u, "w": w, "D": D,
             "exact": rng.random() < 0.6, "burn": rng.choice([0, 1, 5, 5, 40]), "thin": rng.choice([0, 1, 5, 40]),
-            "seed": 0 if rng.random() < 0.06 else rng.randint(0, 10**6), **gen_magnitude(rng, large=False), **gen_streams(rng),
-            "calls": calls, "schedule": schedule, "eager": rng.random() < 0.3, "share": rng.random() < 0.5}
+            "seed": 0 if rng.random() < 0.06 else rng.randint(0, 10**6), **({} if carry else gen_magnitude(rng, large=False)),
+            **gen_streams(rng), "calls": calls, "schedule": schedule, "eager": rng.random() < 0.3, "share": rng.random() < 0.5}
 
 
 def witness_sessions():
@@ -1397,20 +1821,30 @@ def gen_edges(rng, labels, n_edges):
 
 def gen_hyg(rng):
     n = rng.randint(3, 9)
-    if rng.random() < 0.35:
-        pool = [chr(97 + i) * rng.randint(1, 2) for i in range(20)] + ["E1", "N0", "Z"]
-        labels = sorted(set(rng.sample(pool, n)))
-    else:
-        labels = sorted(rng.sample(range(0, 60), n))
-    edges = gen_edges(rng, labels, rng.randint(2, 8))
-    used = {x for e in edges for x in e}
-    iso = [x for x in labels if x not in used and rng.random() < 0.5]
-    nodes = sorted(used | set(iso))
+    part = gen_initial(rng, n)
+    lk = part["lkind"]
+    n_nodes = len({lab(x, lk) for e in part["edges"] for x in e} | {lab(x, lk) for x in part["isolated"]})
     extra = rng.choice([0, 0, 0, 2])
-    u, w = gen_uw(rng, len(nodes) + extra)
-    return {"mode": "hyg", "edges": [list(e) for e in edges], "isolated": iso, "weighted": rng.random() < 0.2,
+    u, w = gen_uw(rng, n_nodes + extra)
+    return {"mode": "hyg", **part, "weighted": rng.random() < 0.2,
             "u": u, "w": w, "D": None, "exact": True, "burn": rng.choice(STEPS), "thin": rng.choice(STEPS),
             "seed": rng.randint(0, 10**6), **gen_magnitude(rng), **gen_streams(rng)}
+
+
+def zoo_cases():
+    """every label universe once per run with fixed small parameters: 0 MCMC steps (the first samples are the initial
+    hypergraph itself) and a few steps"""
+    import random
+    for i, kind in enumerate(UNIVERSES):
+        rng = random.Random(1000 + i)
+        for j, (burn, thin) in enumerate(((0, 0), (5, 1), (1, 0))):
+            n = 4 + (i + j) % 3
+            part = gen_initial(rng, n, kind)
+            lk = part["lkind"]
+            n_nodes = len({lab(x, lk) for e in part["edges"] for x in e} | {lab(x, lk) for x in part["isolated"]})
+            yield {"mode": "hyg", **part, "weighted": False, "u": [[3 + (k % 3), 1 + (k % 2)] for k in range(n_nodes)],
+                   "w": [[8, 1], [1, 6]], "udiv": 4, "wdiv": 8, "D": None, "exact": True, "burn": burn, "thin": thin,
+                   "seed": 77 + i, "ustream": 0, "nsamples": 2, "zoo": kind}
 
 
 def gen_hard(rng):
@@ -1459,6 +1893,28 @@ def gen_hard(rng):
     return {"mode": "seqs", "deg_seq": deg, "dim_seq": [[k, v] for k, v in dim], "equal_totals": True, "rescale": False, **base}
 
 
+def hub_sequences(rng, N):
+    """equal totals that the greedy construction cannot realise, with the break NOT in the last hyperedge built: k hubs carry the
+    whole degree total, one hyperedge larger than k (listed first in 70 %: it is padded with degree-0 nodes) and r hyperedges of a
+    size <= k that the hubs fill on their own afterwards - the report must stay False although the last hyperedges were fine"""
+    k = rng.randint(2, min(3, N - 2))
+    s1 = rng.randint(k + 1, min(N, k + 3))
+    sz = rng.randint(2, k)
+    r = rng.randint(1, 3)
+    total = s1 + r * sz
+    deg = [0] * N
+    for j in range(total):
+        deg[j % k] += 1
+    hubs = rng.sample(range(N), k)                       # the hubs are not always the first nodes
+    deg2 = [0] * N
+    for j, hnode in enumerate(hubs):
+        deg2[hnode] = deg[j]
+    dim = [[s1, 1], [sz, r]]
+    if rng.random() < 0.3:
+        dim.reverse()
+    return deg2, dim
+
+
 def gen_seqs(rng):
     N = rng.randint(3, 10)
     edges = gen_edges(rng, list(range(N)), rng.randint(2, 9))
@@ -1481,9 +1937,12 @@ def gen_seqs(rng):
         equal = False
     dim = list(dimc.items())
     rng.shuffle(dim)
+    if rng.random() < 0.12 and N >= 4:
+        deg, dim = hub_sequences(rng, N)
+        equal = True
     u, w = gen_uw(rng, N)
     return {"mode": "seqs", "deg_seq": deg, "dim_seq": [[k, v] for k, v in dim], "equal_totals": equal,
-            "rescale": rng.random() < 0.15, "u": u, "w": w, "D": None, "exact": True, "burn": rng.choice(STEPS),
+            "rescale": rng.random() < 0.15, "ddtype": rng.choice(DDTYPES), "u": u, "w": w, "D": None, "exact": True, "burn": rng.choice(STEPS),
             "thin": rng.choice(STEPS), "seed": rng.randint(0, 10**6), **gen_magnitude(rng), **gen_streams(rng)}
 
 
@@ -1512,6 +1971,30 @@ def witness_cases():
         yield {"mode": "hyg", "edges": [[4, 6, 8], [0, 3], [1, 4, 7], [2, 3, 4]], "isolated": [5], "weighted": False, "u": u,
                "w": [[15, 0, 0], [0, 23, 0], [0, 0, 15]], "udiv": 100, "wdiv": 8, "D": None, "exact": True, "burn": burn, "thin": 0,
                "seed": seed, "ustream": 0, "witness": "D45"}
+
+
+def witness_labels():
+    """D57 (fixed): the labels 3, 7, 2^53+3, 2^53+4 (+5); node 3 is written as the integer 3 in one hyperedge and as the float 3.0
+    in the hyperedge it shares with 2^53+3.  The unrepaired `sample` encoded each hyperedge with `LabelEncoder.transform`, numpy made
+    the array (3.0, 2^53+3) float64 and rounded the integer to 2^53+4: the id of the neighbouring node (silently: with 0 MCMC steps
+    the sample is not the initial hypergraph, 2^53+4 has degree 2 > 1) or no label at all (ValueError).  Regression: must pass."""
+    B = 2 ** 53
+    for other, burn, seed in ((B + 4, 0, 1), (B + 5, 0, 2), (B + 4, 5, 3)):
+        yield {"mode": "hyg", "edges": [[3, 7], [3.0, B + 3], [7, other]], "isolated": [], "lkind": "num", "weighted": False,
+               "u": [[8]] * 4, "w": [[8]], "D": None, "exact": True, "burn": burn, "thin": 0, "seed": seed, "ustream": 0, "witness": "D57"}
+
+
+def witness_rescale():
+    """D58 (fixed): four hard communities with at most one member each, parameters that are no dyadic fractions: every expected
+    degree of the model is 0, computed as -1e-19 .. -6e-19.  `allow_rescaling=True` took the square root of the negative
+    least-squares constant: u = nan in place, every truncated-Poisson mean nan, every sample of this call and of every later call on
+    the sampler empty (although sequences were reported as matching / no two hyperedges coincided).  Regression: must pass."""
+    base = {"u": [[7, 0, 0, 0], [0, 7, 0, 0], [0, 0, 0, 0], [0, 0, 7, 0]], "udiv": 100, "w": [[12, 0, 0, 0], [0, 24, 0, 0], [0, 0, 7, 0], [0, 0, 0, 3]],
+            "wdiv": 8, "D": None, "exact": False, "seed": 274555, "ustream": 0, "witness": "D58"}
+    seqs = {"mode": "seqs", "deg_seq": [2, 2, 1, 1], "dim_seq": [[3, 2]], "equal_totals": True, "rescale": True, "ddtype": "int64"}
+    yield {**base, **seqs, "burn": 0, "thin": 0}
+    hyg = {"mode": "hyg", "edges": [[2, 1, 3], [2, 0, 3, 1], [3, 1], [3, 0]], "isolated": [], "lkind": "num", "weighted": False}
+    yield {**base, "mode": "session", "burn": 1, "thin": 1, "calls": [hyg, seqs], "schedule": [1, 0, 0, 1], "eager": True, "share": False}
 
 
 TP_MEANS = [1.0e-300, 1.0e-30, 1.0e-17, 1.0e-12, 1.0e-10, 1.0e-10, 3.0e-9, 1.0e-7, 1.0e-4, 0.01, 0.3, 0.6931, 0.7, 1.0, 2.5, 30.0,
@@ -1582,10 +2065,18 @@ def quiet():
 def run(ctx):
     quiet()
     drv = ctx.driver() if ctx.model_available else None
-    n = ctx.scale(330, 4000)
+    n = ctx.scale(300, 4000)
     for case in witness_cases():
         check_case(ctx, drv, case)
     for sess in witness_sessions():
+        check_session(ctx, drv, sess)
+    for case in witness_labels():
+        check_case(ctx, drv, case)
+    for case in witness_rescale():
+        (check_session if case["mode"] == "session" else check_case)(ctx, drv, case)
+    for case in zoo_cases():
+        check_case(ctx, drv, case)
+    for sess in zoo_sessions():
         check_session(ctx, drv, sess)
     gens = [gen_hyg, gen_seqs, gen_model, gen_hard]
     for i in range(n):
@@ -1608,13 +2099,8 @@ def replay(ctx, case):
     case = {k: v for k, v in case.items() if k not in ("line", "sample_no", "exc", "run", "zero_every", "call_no")}
     mode = case.get("mode")
     if mode == "session":
-        for c in case["calls"]:
-            if c["mode"] == "hyg":
-                c["edges"] = [tuple(e) for e in c["edges"]]
         check_session(ctx, drv, case)
     elif mode in ("hyg", "seqs", "model"):
-        if mode == "hyg":
-            case["edges"] = [tuple(e) for e in case["edges"]]
         check_case(ctx, drv, case)
     else:
         ctx.assumptions.append("direct-call cases are regenerated from VERIF_SEED, not replayed individually")
